@@ -117,8 +117,13 @@ def vclass(v):
     return "plain"
 
 
+OTHER = ['"Quoted other"', "{Braced other}", "bareOther", "17"]
+
+
 def mk(value, with_string=True):
-    specs = [["entry", "article", "k", [["title", value], ["year", value]], "raw", 0]]
+    # a case-variant key with a (usually) different enclosing sits in the same entry: records are per field key
+    other = OTHER[len(str(value)) % len(OTHER)]
+    specs = [["entry", "article", "k", [["title", value], ["Title", other], ["year", value], ["YEAR", other]], "raw", 0]]
     if with_string and isinstance(value, str):
         specs.append(["string", "s", value])
     specs.append(["icomment", "c"])
@@ -150,12 +155,17 @@ def check(case, ctx):
             e = r1.entries[0]
             s = r1.strings[0]
             ctx.mon("remove_rule")
-            got = [(f.key, f.value) for f in e.fields] + [("@string", s.value)]
+            got = [(f.key, f.value) for f in e.fields if f.key in ("title", "year")] + [("@string", s.value)]
+            other = OTHER[len(str(v)) % len(OTHER)]
+            if any(f.value != rule(other)[0] for f in e.fields if f.key in ("Title", "YEAR")):
+                out.append(Violation("remove-rule", f"C10:remove-rule:case-variant-key:{cls}", dict(value=v, other=other, got=[(f.key, f.value) for f in e.fields])))
+                break
             if any(val != want_val for _, val in got):
                 out.append(Violation("remove-rule", f"C10:remove-rule:{cls}", dict(value=v, got=got, want=want_val)))
                 break
             md = e.parser_metadata.get("removed_enclosing")
-            if md != {"title": want_kind, "year": want_kind} or s.parser_metadata.get("removed_enclosing") != want_kind:
+            okind = rule(OTHER[len(str(v)) % len(OTHER)])[1]
+            if md != {"title": want_kind, "Title": okind, "year": want_kind, "YEAR": okind} or s.parser_metadata.get("removed_enclosing") != want_kind:
                 out.append(Violation("remove-metadata", f"C10:remove-metadata:{cls}", dict(value=v, got=srepr(md), string=srepr(s.parser_metadata), want=want_kind)))
                 break
             # a second removal pass over the same block: strips the next layer (if any) and records THAT
@@ -167,16 +177,17 @@ def check(case, ctx):
                 break
             want2, kind2 = rule(want_val)
             e2, s2 = r1b.entries[0], r1b.strings[0]
-            if any(f.value != want2 for f in e2.fields) or s2.value != want2:
+            if any(f.value != want2 for f in e2.fields if f.key in ("title", "year")) or s2.value != want2:
                 out.append(Violation("remove-rule", f"C10:remove-rule:second-pass:{cls}", dict(value=v, got=[f.value for f in e2.fields], want=want2)))
                 break
-            if e2.parser_metadata.get("removed_enclosing") != {"title": kind2, "year": kind2} or s2.parser_metadata.get("removed_enclosing") != kind2:
+            md2 = e2.parser_metadata.get("removed_enclosing") or {}
+            if (md2.get("title"), md2.get("year")) != (kind2, kind2) or s2.parser_metadata.get("removed_enclosing") != kind2:
                 out.append(Violation("remove-metadata", f"C10:remove-metadata:second-pass:{vclass(want_val)}",
                                      dict(value=v, got=srepr(e2.parser_metadata.get("removed_enclosing")), string=srepr(s2.parser_metadata), want=kind2)))
                 break
             st, back = run(AddEnclosingMiddleware(reuse_previous_enclosing=True, enclose_integers=True, default_enclosing="{", allow_inplace_modification=inplace), r1b)
             ctx.ran()
-            if st == "raise" or any(f.value != want_val.strip() for f in back.entries[0].fields) or back.strings[0].value != want_val.strip():
+            if st == "raise" or any(f.value != want_val.strip() for f in back.entries[0].fields if f.key in ("title", "year")) or back.strings[0].value != want_val.strip():
                 out.append(Violation("restore-law", f"C10:restore-law:second-pass:{vclass(want_val)}", dict(value=v, got=srepr(back), want=want_val.strip())))
                 break
             # restore law under every option set with reuse=True
@@ -193,7 +204,11 @@ def check(case, ctx):
                 if st == "raise":
                     out.append(Violation("raised", f"C10:add-raised:{cls}:{b.split(':')[0]}", dict(value=v, opts=[d, reuse, ei], error=b)))
                     break
-                got = [f.value for f in b.entries[0].fields] + [b.strings[0].value]
+                got = [f.value for f in b.entries[0].fields if f.key in ("title", "year")] + [b.strings[0].value]
+                oth = [f.value for f in b.entries[0].fields if f.key in ("Title", "YEAR")]
+                if any(x != OTHER[len(str(v)) % len(OTHER)] for x in oth):
+                    out.append(Violation("restore-law", f"C10:restore-law:case-variant-key", dict(value=v, opts=[d, reuse, ei], got=oth, want=OTHER[len(str(v)) % len(OTHER)])))
+                    break
                 if any(x != v.strip() for x in got):
                     out.append(Violation("restore-law", f"C10:restore-law:{cls}", dict(value=v, opts=[d, reuse, ei], got=got, want=v.strip())))
                     break
